@@ -19,7 +19,9 @@ import (
 
 func init() {
 	fw.Register(&fw.Prop{
-		ID: "C03",
+		ID:       "C03",
+		Builds:   []string{"default", "386"}, // the 386 build runs 1/4 of the random classes on a 32-bit target
+		Scale386: 4,
 		Rule: "wordlist: all 2048 indices of both built-in lists are read through EntropyToMnemonic (11 chosen indices per call) and compared with the official lists (embedded, SHA-256 checked against the published digests). encode: both lists x all 13 entropy lengths x {all-zero, all-one, k leading zero bytes for every k, trailing zero bytes, a single set bit at every position, random} plus sizes 0..70 for the size rule; sentence equality with the bit-level model and decode(encode(e)) == e. decode: valid sentences, the last word replaced by every word sharing its entropy bits (exactly one checksum value is accepted), one word replaced, rotations, lengths 0..50, words of the other list, NFC-composed words, empty strings: accept iff the model accepts, entropy equality, re-encode fixed point, error class on reject. concurrent: 8 goroutines encode and decode entropies of all 13 sizes at once under one word list. " +
 			"Non-trivial: distinct (list, entropy) with a zero leading byte or more than 32 bytes, and distinct rejected sentences.",
 		Assumptions: []string{"SHA-256 of the Go standard library", "the embedded official word lists (checked against the published SHA-256 digests of english.txt and japanese.txt)", "the bit-level model in harness/oracle/bip39m (self-tested on Trezor vectors)"},
